@@ -230,6 +230,7 @@ class Run:
         self.known_hits = {}
         self.crashes = []
         self.extra = {}
+        self.model_lines = {}   # model command -> number of request lines evaluated by the Lean driver and compared
 
     # -- exploration ------------------------------------------------------------------------
     def explore(self, cases, label="main", budget_s=None, stop_on_violation=False):
@@ -265,6 +266,9 @@ class Run:
                         lines.append(ln)
                         owners.append((ci, li))
                 outs = drive(lines)
+                for ln in lines:
+                    cmd = ln.split(" ", 1)[0]
+                    self.model_lines[cmd] = self.model_lines.get(cmd, 0) + 1
                 for (ci, li), mo in zip(owners, outs):
                     r, c = rs[ci], cs[ci]
                     io = r["impl"][li]
@@ -391,6 +395,7 @@ class Run:
                 "samples": self.samples,
                 "branch_histogram": dict(sorted(self.stats.items())),
                 "correspondence_disagreements": len(self.disagreements),
+                "model_lines_compared": dict(sorted(self.model_lines.items())),
                 "known_findings_hit": self.known_hits,
                 "unproved_clauses": list(getattr(mod, "UNPROVED", [])),
                 "exhaustive": bool(getattr(mod, "EXHAUSTIVE", {}).get(self.tier, False)),
